@@ -67,7 +67,7 @@ const c14Rule = "(every sixth case publishes an EMPTY index, every sixth an inde
 type c14In struct {
 	C14  bool  `json:"c14"`
 	Case eCase `json:"case"`
-	Ops  []int `json:"ops"` // 0 Reset, 1 AddDocument(new field), 2 BuildIndex, 3 ConfigField(new)
+	Ops  []int `json:"ops"` // 0 Reset, 1 AddDocument(new field), 2 BuildIndex, 3 ConfigField(new), 4 AddDocument(known field only)
 }
 
 func execC14(raw json.RawMessage) (res execResult, err error) {
@@ -118,6 +118,10 @@ func execC14(raw json.RawMessage) (res execResult, err error) {
 			}
 			d.AddConjunction(conj, be.NewConjunction())
 			safeCall(func() { b.AddDocument(d) })
+		case 4: // one expression on a field of the published generation, at conjunction size 1
+			d := be.NewDocument(be.DocID(7000 + n))
+			d.AddConjunction(be.NewConjunction().In(fieldName(0), []int{0, 1, 2, 3, 4, 5, 6}))
+			safeCall(func() { b.AddDocument(d) })
 		case 2:
 			safeCall(func() { b.BuildIndex() })
 		case 3:
@@ -161,9 +165,14 @@ func init() {
 						c.Docs[j].Cons = append(c.Docs[j].Cons, eConj{{F: 0, Inc: true, V: TV{T: "other:struct"}}})
 					}
 					ops = []int{0, 1, 2}
+				case 5: // the published generation ends with a one-expression conjunction on field 0 and the next
+					// generation starts with one (anything the builder remembers about "the previous expression"
+					// then points into the published index)
+					c.Docs = append(c.Docs, eDoc{ID: 6999, Cons: []eConj{{{F: 0, Inc: true, V: tvSlice("[]int", tvInt("int", 1), tvInt("int", 9))}}}})
+					ops = []int{0, 4, 2}
 				}
 				for k := 1 + r.Intn(19); k > 0; k-- {
-					ops = append(ops, r.Intn(4))
+					ops = append(ops, r.Intn(5))
 				}
 				// a field configured with an empty option before publication that no document of the published
 				// generation uses; later generations are the first to use it
